@@ -31,9 +31,10 @@ def _kv(spec):
     return bspline.KnotVector(np.array(kv, dtype=float), p)
 
 
-def _gauss(kvs):
-    """per kv axis: nodes and weights of the composite Gauss rule with max(p)+1 points per span"""
-    nqp = max(kv.p for kv in kvs) + 1
+def _gauss(kvs, nqp=None):
+    """per kv axis: nodes and weights of the composite Gauss rule with nqp (default max(p)+1) points per span"""
+    if nqp is None:
+        nqp = max(kv.p for kv in kvs) + 1
     x, w = np.polynomial.legendre.leggauss(nqp)
     out = []
     for kv in kvs:
@@ -140,7 +141,11 @@ def _reference(spec, kvs_spaces, geo, data):
     dim = V.dim
     exprs = [S.den(e) for e in V.exprs]
     kvs0 = kvs_spaces[0]
-    gauss = _gauss(kvs0)
+    # max degree over ALL spaces the form uses + 1 nodes per span (the spaces share the mesh)
+    used = sorted({bf.space for bf in V.basis_funs})
+    allkvs = [kv for sp_ in used for kv in kvs_spaces[sp_]]
+    nqp = max(kv.p for kv in allkvs) + 1
+    gauss = _gauss(kvs0, nqp)
     grid = [g[0] for g in gauss]
     gshape = tuple(len(g) for g in grid)
     npts = int(np.prod(gshape))
@@ -376,6 +381,14 @@ def warmup(tier):
 
 def generate(tier, rng):
     quick = tier == 'quick'
+    # two-space (Petrov-Galerkin) forms: degree gaps in both directions on the non-affine map (the node count is max degree over BOTH spaces + 1)
+    brs = [[0.0, 0.5, 1.0], [0.0, 0.3, 0.55, 1.0]]
+    for s in specs(tier):
+        if len(set(s.get('spaces', [0, 0]))) > 1 and s.get('arity', 2) == 2:
+            for (p0, p1) in ((1, 3), (3, 1), (2, 3)):
+                kvs = [[p0, brs[k % 2], [1] * (len(brs[k % 2]) - 2)] for k in range(s['dim'])]
+                kvs2 = [[p1, brs[k % 2], [1] * (len(brs[k % 2]) - 2)] for k in range(s['dim'])]
+                yield 'assemble', {'spec': s, 'kvs': kvs, 'kvs2': kvs2, 'geo': 'bump', 'seed': p0 * 10 + p1}
     for k, s in enumerate(specs(tier)):
         nvar = (2 if k < 12 else 1) if quick else 3
         for v in range(nvar):
